@@ -2,6 +2,7 @@
 # tools/seed.sh <seed-dir> <check ids...> : confirm a seeded change (suite passes, demo fails with / passes without), run checks against it
 sd="$1"; shift
 export GOFLAGS=-mod=mod GOPROXY=off GOSUMDB=off GOTOOLCHAIN=local
+rm -rf /verif/build/evidence.bak /verif/build/replays.bak; cp -r /verif/evidence /verif/build/evidence.bak; cp -r /verif/replays /verif/build/replays.bak 2>/dev/null
 cd /repo || exit 2
 git diff --quiet || { echo "/repo not clean"; exit 2; }
 demo_pkg_dir=$(cat $sd/demo_dir 2>/dev/null || echo .)
@@ -20,3 +21,4 @@ for id in "$@"; do
 done
 git checkout -- .
 git status --short | head -3
+rm -rf /verif/evidence /verif/replays; mv /verif/build/evidence.bak /verif/evidence; mv /verif/build/replays.bak /verif/replays 2>/dev/null; true
